@@ -520,7 +520,7 @@ fn vault_history(acc: &mut Acc, r: &mut Rng, steps: u64) {
     let liq = [r.range128(1_000_000, 1_000_000_000_000_000), r.range128(1_000_000, 1_000_000_000_000_000)];
     let with_liquidity = r.chance(5, 6);
     let mut wd: VaultWorld = if with_liquidity { seeded_world(fees, liq) } else { crate::mon::vaults::build_vault_world(fees) };
-    let tokens = wd.tokens.clone();
+    let mut tokens = wd.tokens.clone();
     let (owner, vfactory) = (wd.owner.clone(), wd.vfactory.clone());
     for v in 0..2 {
         let c: vm::Config = query(&wd.app, &wd.vaults[v].addr, &vm::QueryMsg::Config {}).unwrap();
@@ -529,12 +529,48 @@ fn vault_history(acc: &mut Acc, r: &mut Rng, steps: u64) {
             acc.violation("C17", "P4/fresh-vault-not-all-enabled", json!({"config": format!("{c:?}")}));
         }
     }
-    let mut t = [ALL, ALL];
-    let mut ever = [false, false];
+    let mut t = vec![ALL, ALL];
+    let mut ever = vec![false, false];
+    // registered[v]: the vault factory's registry points at vault v for its asset
+    let mut registered = vec![true, true];
     let mut hist: Vec<String> = vec![format!("world vaults liquidity={with_liquidity}")];
     for _ in 0..steps {
-        let v = r.idx(2);
-        let target = if v == 0 { "vault-native" } else { "vault-cw20" };
+        // now and then the operator retires a vault and creates a new one for the same asset: the old vault stays
+        // factory-owned (its switches are still set through the factory by address) but is no longer registered
+        if wd.vaults.len() < 4 && r.chance(1, 25) {
+            let old = r.idx(2);
+            let a = wd.vaults[old].asset.clone();
+            let cur_reg = (0..wd.vaults.len()).find(|i| registered[*i] && wd.vaults[*i].asset == a).unwrap();
+            hist.push(format!("remove + re-create the vault for {} (vault #{cur_reg} retired)", a.id()));
+            let rm = exec(&mut wd.app, &owner, &vfactory, &vfm::ExecuteMsg::RemoveVault { asset_info: a.info() }, &[]);
+            if rm.is_ok() {
+                registered[cur_reg] = false;
+                match create_vault(&mut wd.app, &owner, &vfactory, a.clone(), vault_fee(fees[old])) {
+                    Ok(h) => {
+                        tokens.push(h.lp.clone());
+                        wd.tokens.push(h.lp.clone());
+                        wd.vaults.push(h);
+                        wd.fees.push(fees[old]);
+                        wd.charged.push(0);
+                        wd.sent.push(0);
+                        wd.burned.push(0);
+                        wd.first_done.push(false);
+                        t.push(ALL);
+                        ever.push(false);
+                        registered.push(true);
+                        acc.count("vault.retired-and-recreated");
+                        let c: vm::Config = query(&wd.app, &wd.vaults.last().unwrap().addr, &vm::QueryMsg::Config {}).unwrap();
+                        acc.count("check.P4.fresh-all-enabled");
+                        if !(c.deposit_enabled && c.withdraw_enabled && c.flash_loan_enabled) {
+                            acc.violation("C17", "P4/fresh-vault-not-all-enabled", json!({"config": format!("{c:?}")}));
+                        }
+                    }
+                    Err(e) => hist.push(format!("   re-creation failed: {}", short(&e))),
+                }
+            }
+        }
+        let v = r.idx(wd.vaults.len());
+        let target = if wd.vaults[v].asset.is_native() { "vault-native" } else { "vault-cw20" };
         let va = wd.vaults[v].addr.clone();
         if r.chance(1, 3) {
             let nt = T3::from_bits(r.below(8));
@@ -603,6 +639,10 @@ fn vault_history(acc: &mut Acc, r: &mut Rng, steps: u64) {
                 let mut op = move |app: &mut App| exec(app, &u2, &b2, &BorrowerExec::Start { vault: va2.to_string(), amount: Uint128::new(amt), script: script.clone() }, &[]);
                 twin(acc, &mut wd.app, &tokens, target, "flash-loan.direct", OpKind::Third, cur, ever[v], &mut set, &mut op, &hist, r);
             }
+            _ if !registered[v] => {
+                // the vault router resolves the vault through the registry: a retired vault is not reachable that way
+                acc.count("vault.retired.router-path-skipped");
+            }
             _ => {
                 let amt = if bal == 0 { 1000 } else { r.range128(1, bal) };
                 hist.push(format!("flash loan {target} via vault router amount={amt}"));
@@ -650,7 +690,7 @@ pub fn run(ctx: &Ctx) -> (CheckMeta, Acc) {
             }
         }
     });
-    let mut obligations: Vec<String> = vec!["check.P1.disabled-op-rejected".into(), "check.P2.enabled-op-unaffected".into(), "check.P3.round-trip-before-twin".into(), "check.P4.fresh-all-enabled".into(), "toggle.set.vault.mode0".into(), "toggle.set.vault.mode1".into(), "toggle.set.vault.mode2".into(), "toggle.set.trio.with-amp-ramp".into()];
+    let mut obligations: Vec<String> = vec!["check.P1.disabled-op-rejected".into(), "check.P2.enabled-op-unaffected".into(), "check.P3.round-trip-before-twin".into(), "check.P4.fresh-all-enabled".into(), "toggle.set.vault.mode0".into(), "toggle.set.vault.mode1".into(), "toggle.set.vault.mode2".into(), "toggle.set.trio.with-amp-ramp".into(), "vault.retired-and-recreated".into()];
     for (tg, paths) in [
         ("pair-cp", vec!["deposit.direct", "deposit.frontend-helper", "withdraw.cw20-hook", "swap.direct", "swap.cw20-hook", "swap.router", "swap.router-cw20-hook"]),
         ("pair-stable", vec!["deposit.direct", "withdraw.cw20-hook", "swap.direct", "swap.cw20-hook", "swap.router", "swap.router-cw20-hook"]),
